@@ -89,7 +89,10 @@ Aligned(o, kind, input, base, out, withPos) ==
                               \/ (MayDecode(o, kind, b) /\ <<out[j][1], out[j][2]>> = DecodedAlt(o, kind, b))
                               \* an UNTERMINATED literal (no closing quote): what its "decoded value" is, is not stated anywhere
                               \* (decoding is only required not to fail on it) - the token stays one token of its type
-                              \/ ("decodeStrings" \in o /\ (IsQuoteTok(kind, b) \/ MayDecode(o, kind, b)) /\ ~ClosedLiteral(b[2])
+                              \* (likewise a literal that one quote state read and a state of ANOTHER kind decodes - the configuration
+                              \* generic-2quotes: the two states need not agree on what doubled quotes inside mean)
+                              \/ ("decodeStrings" \in o /\ (IsQuoteTok(kind, b) \/ MayDecode(o, kind, b))
+                                  /\ (~ClosedLiteral(b[2]) \/ (kind = "generic-2quotes" /\ b[2][1] = 96))
                                   /\ out[j][1] = Rewrite(o, kind, b)[1]))
                           /\ (withPos => <<out[j][3], out[j][4]>> = pos)
              \* Deterministic (one pass): a token that must go is dropped; otherwise it is kept when the next output token
